@@ -57,4 +57,33 @@ def observe {σ : Type} (H : Bytes → Bytes) (cfg : Config) (P : Provider σ) (
   let r := validate H cfg P s req
   { out := r.out.map (fun _ => ()), calls := r.calls, state := r.state, debug := validateDebug H cfg P s req }
 
+/-! ### Renderings of the key types
+
+`signing_key.rs:89-147`: `Debug` and `Display` of each of the five key types write the type's name
+and nothing else. The key bytes are an argument here so that "does not depend on the key" is a
+statement about these functions rather than a convention. -/
+
+inductive KeyKind
+  | secret | date | region | service | signing
+  deriving Repr, DecidableEq
+
+def KeyKind.typeName : KeyKind → String
+  | .secret => "KSecretKey"
+  | .date => "KDateKey"
+  | .region => "KRegionKey"
+  | .service => "KServiceKey"
+  | .signing => "KSigningKey"
+
+/-- `impl Debug for K…Key` (also under the alternate flag `{:#?}`, which `write_str` ignores). -/
+def renderKeyDebug (k : KeyKind) (_key : Bytes) : String := k.typeName
+
+/-- `impl Display for K…Key`. -/
+def renderKeyDisplay (k : KeyKind) (_key : Bytes) : String := k.typeName
+
+/-- `#[derive(Debug)] GetSigningKeyResponse { principal, session_data, signing_key }`: the key field is
+rendered by `renderKeyDebug`; principal and session data are the provider's own data (`shown`). -/
+def renderResponseDebug (shownPrincipal shownSession : String) (key : Bytes) : String :=
+  "GetSigningKeyResponse { principal: " ++ shownPrincipal ++ ", session_data: " ++ shownSession
+    ++ ", signing_key: " ++ renderKeyDebug .signing key ++ " }"
+
 end SigV4
